@@ -81,7 +81,7 @@ theorem goodFr_search (pr : PA) (h : WF pr) (anchor : NodeRef) (pR : Option Root
   cases hf : pr.findHead anchor.root anchor.slot with
   | ok s a =>
     rw [hf] at hg; simp only
-    obtain ⟨nc', c', e⟩ := searchLoop_done s hg.1 ((aGet s.indices anchor).getD 0) ((aGet s.indices a).getD 0) a pR sl
+    obtain ⟨nc', c', e⟩ := searchLoop_done s hg.1 ((aGet s.indices anchor).getD 0) ((aGet s.indices a).getD 0) a pR sl _
       s.nodes [] [] (fun n hn => by
         obtain ⟨i, hi, e⟩ := List.mem_iff_getElem.mp hn
         exact ⟨i, by rw [List.getElem?_eq_getElem hi, e]⟩)
